@@ -513,7 +513,9 @@ pub mod rewrite {
             && module_reference.eq(&error.location.module_reference) =>
         {
           for (mod_ref, mod_cx) in state.global_cx.iter() {
-            if mod_cx.interfaces.get(name).is_some_and(|interface_sig| !interface_sig.private) {
+            if mod_ref.ne(module_reference)
+              && mod_cx.interfaces.get(name).is_some_and(|interface_sig| !interface_sig.private)
+            {
               actions.push(generate_auto_import_code_action(
                 state,
                 *module_reference,
